@@ -52,6 +52,16 @@ func requestFrame(v primitive.ProtocolVersion, sid int16, uid string) *frame.Fra
 	return frame.NewFrame(v, sid, &message.Query{Query: uid})
 }
 
+// pagingState is nil half of the time: HAS_MORE_PAGES is independent of what completes a request (an
+// ordinary Rows result is final with or without it; a continuous page is final iff LAST_CONTINUOUS_PAGE,
+// which DSE also sets together with a paging state when max_pages is reached).
+func pagingState(r *mon.Rand) []byte {
+	if r.Bool() {
+		return nil
+	}
+	return r.Bytes(1 + r.Intn(12))
+}
+
 // responseFrame builds page `page` (1-based) of the response planned for uid. ntag is the
 // normalised tag the checker expects.
 func responseFrame(v primitive.ProtocolVersion, sid int16, uid string, p plan, page int, r *mon.Rand) (f *frame.Frame, ntag string) {
@@ -63,7 +73,7 @@ func responseFrame(v primitive.ProtocolVersion, sid int16, uid string, p plan, p
 		m = &message.SetKeyspaceResult{Keyspace: tag}
 	case kRows:
 		m = &message.RowsResult{
-			Metadata: &message.RowsMetadata{ColumnCount: 2},
+			Metadata: &message.RowsMetadata{ColumnCount: 2, PagingState: pagingState(r)},
 			Data:     message.RowSet{message.Row{[]byte(tag), r.Bytes(r.Intn(24))}},
 		}
 	case kError:
@@ -74,7 +84,7 @@ func responseFrame(v primitive.ProtocolVersion, sid int16, uid string, p plan, p
 		}
 	case kPaged:
 		m = &message.RowsResult{
-			Metadata: &message.RowsMetadata{ColumnCount: 2, ContinuousPageNumber: int32(page), LastContinuousPage: page == p.Pages},
+			Metadata: &message.RowsMetadata{ColumnCount: 2, ContinuousPageNumber: int32(page), LastContinuousPage: page == p.Pages, PagingState: pagingState(r)},
 			Data:     message.RowSet{message.Row{[]byte(tag), r.Bytes(r.Intn(24))}},
 		}
 	case kBig:
